@@ -29,6 +29,18 @@
 // mixed-case spelling, both stacking orders, around each (base, kind,
 // interceptors, other layers none/all) base case.
 //
+// The "key alphabet" sweep (keys.go): keys that look like protocol headers
+// (grpc- prefix, -bin suffix, HTTP header names, pseudo headers, names grpc-go
+// itself uses), each carried by every non-empty set of the three sources, alone
+// and next to an ordinary key, both spellings and stacking orders, around each
+// base case; which of them the standard transport forwards is a table that the
+// thorough tier checks against grpc-go.
+//
+// The pinned "re-use" part (reuse.go): the caller changes the MD it gave to
+// NewOutgoingContext immediately after the stub call returned, and re-uses one
+// MD for a series of calls; run in a child process with a single P, each case
+// twice.
+//
 // In the thorough tier the same oracle (minus the in-process-only clauses) is
 // first validated against real grpc-go over bufconn: a disagreement there is an
 // error of the checker.
@@ -118,6 +130,13 @@ type kase struct {
 	MDNew    string `json:"md_new,omitempty"`
 	MDApp    string `json:"md_app,omitempty"`
 	Spelling string `json:"spelling,omitempty"` // lower | mixed
+	// key-alphabet sweep (Part "keys"): one key of keyAlphabet ("*" = all of them at
+	// once), the "+"-joined sources that carry it (new = NewOutgoingContext, app =
+	// AppendToOutgoingContext, creds = per-RPC credentials), and whether every such
+	// source carries the ordinary key "ka" next to it
+	Key       string `json:"key,omitempty"`
+	Sources   string `json:"sources,omitempty"`
+	Companion bool   `json:"companion,omitempty"`
 }
 
 func (c kase) end() string {
@@ -150,6 +169,9 @@ func (c kase) String() string {
 	}
 	if c.Part == "md" {
 		s += fmt.Sprintf(" NewOutgoingContext=%s AppendToOutgoingContext=%s spelling=%s", orNone(c.MDNew), orNone(c.MDApp), c.Spelling)
+	}
+	if c.Part == "keys" {
+		s += fmt.Sprintf(" key=%q carried-by=%s with-ordinary-key=%v spelling=%s", c.Key, c.Sources, c.Companion, c.Spelling)
 	}
 	return s
 }
@@ -231,6 +253,12 @@ func appPairs(sub string, mixed bool) []string {
 // credsMap is what the per-RPC credentials return (nil when there is no
 // credentials option).
 func credsMap(c kase) (m map[string]string, present bool) {
+	if c.Part == "keys" {
+		if c.Creds == "" {
+			return nil, false
+		}
+		return keyCredsMap(c), true
+	}
 	switch c.Creds {
 	case "":
 		return nil, false
@@ -317,6 +345,9 @@ type kv struct {
 
 type finding struct {
 	Clause, Where, When, Detail string
+	// Shape (key-alphabet part only): what the metadata key on which the clause
+	// fails looks like ("ordinary" for the plain key that accompanies it)
+	Shape string `json:",omitempty"`
 }
 
 // The instants at which the oracle is evaluated, in the order used to name the
@@ -375,9 +406,13 @@ func newState(c kase, reference bool) *runState {
 }
 
 func (st *runState) add(clause, where, when, detail string) {
+	st.addFinding(finding{Clause: clause, Where: where, When: when, Detail: detail})
+}
+
+func (st *runState) addFinding(f finding) {
 	st.mu.Lock()
 	defer st.mu.Unlock()
-	st.findings = append(st.findings, finding{clause, where, when, detail})
+	st.findings = append(st.findings, f)
 }
 
 func (st *runState) fail(msg string) {
@@ -417,7 +452,7 @@ func mdString(m metadata.MD) string {
 	var sb strings.Builder
 	sb.WriteString("{")
 	for _, k := range ks {
-		fmt.Fprintf(&sb, "%s=%v ", k, m[k])
+		fmt.Fprintf(&sb, "%s=%q ", k, m[k])
 	}
 	return strings.TrimSpace(sb.String()) + "}"
 }
@@ -458,6 +493,13 @@ func containsAll(got, want []string) bool {
 // caller's order, that the credentials' values are all there, and nothing
 // else. The result is "" or the name of the sub-clause that fails.
 func carried(got, caller, creds metadata.MD) string {
+	sub, _ := carriedKey(got, caller, creds, nil)
+	return sub
+}
+
+// carriedKey is carried with the keys for which skip says true left out of the
+// comparison; it also names the (alphabetically first) key that fails worst.
+func carriedKey(got, caller, creds metadata.MD, skip func(string) bool) (string, string) {
 	keys := map[string]bool{}
 	for k := range caller {
 		keys[k] = true
@@ -470,31 +512,56 @@ func carried(got, caller, creds metadata.MD) string {
 		ks = append(ks, k)
 	}
 	sort.Strings(ks)
-	worst := ""
+	worst, worstKey := "", ""
 	for _, k := range ks {
+		if skip != nil && skip(k) {
+			continue
+		}
 		g, ca, cr := got[k], caller[k], creds[k]
 		if len(cr) == 0 {
 			if !reflect.DeepEqual(g, ca) {
-				return "mismatch" // plain: a key only the caller sends
+				return "mismatch", k // plain: a key only the caller sends
 			}
 			continue
 		}
 		switch {
 		case !subsequence(ca, g):
 			if worst == "" || worst == "extra-values" {
-				worst = "caller-values-lost-on-credentials-key"
+				worst, worstKey = "caller-values-lost-on-credentials-key", k
 			}
 		case !containsAll(g, cr):
 			if worst == "" || worst == "extra-values" {
-				worst = "credentials-values-lost"
+				worst, worstKey = "credentials-values-lost", k
 			}
 		case len(g) != len(ca)+len(cr):
 			if worst == "" {
-				worst = "extra-values"
+				worst, worstKey = "extra-values", k
 			}
 		}
 	}
-	return worst
+	return worst, worstKey
+}
+
+// firstDiffKey names the alphabetically first key on which two metadata differ.
+func firstDiffKey(a, b metadata.MD) string {
+	keys := map[string]bool{}
+	for k := range a {
+		keys[k] = true
+	}
+	for k := range b {
+		keys[k] = true
+	}
+	var ks []string
+	for k := range keys {
+		ks = append(ks, k)
+	}
+	sort.Strings(ks)
+	for _, k := range ks {
+		if !reflect.DeepEqual(a[k], b[k]) {
+			return k
+		}
+	}
+	return ""
 }
 
 // ---------------------------------------------------------------- caller side
@@ -512,6 +579,8 @@ func (st *runState) applyLayer(ctx context.Context, i int) context.Context {
 	case "outgoing-md":
 		if st.c.Part == "md" {
 			st.origOut = metadata.Pairs(newPairs(st.c.MDNew, st.c.Spelling == "mixed")...)
+		} else if st.c.Part == "keys" {
+			st.origOut = metadata.Pairs(keyPairs(st.c, "new")...)
 		} else {
 			st.origOut = metadata.Pairs("out-key", "a", "out-key", "b", "shared-key", "from-outgoing", "out-doomed", "d")
 		}
@@ -519,6 +588,9 @@ func (st *runState) applyLayer(ctx context.Context, i int) context.Context {
 	case "outgoing-appended":
 		if st.c.Part == "md" {
 			return metadata.AppendToOutgoingContext(ctx, appPairs(st.c.MDApp, st.c.Spelling == "mixed")...)
+		}
+		if st.c.Part == "keys" {
+			return metadata.AppendToOutgoingContext(ctx, keyPairs(st.c, "app")...)
 		}
 		return metadata.AppendToOutgoingContext(ctx, "out-appended", "x", "shared-key", "from-appended")
 	case "context-value":
@@ -706,7 +778,16 @@ func (st *runState) drive(cc grpc.ClientConnInterface, base context.Context) {
 // context, evaluated at one instant.
 func (st *runState) observe(ctx context.Context, where, when string) {
 	var pending []finding
-	add := func(clause, detail string) { pending = append(pending, finding{clause, where, when, detail}) }
+	add := func(clause, detail string) {
+		pending = append(pending, finding{Clause: clause, Where: where, When: when, Detail: detail})
+	}
+	addKey := func(clause, key, detail string) {
+		f := finding{Clause: clause, Where: where, When: when, Detail: detail}
+		if st.c.Part == "keys" {
+			f.Shape = keyShape(key)
+		}
+		pending = append(pending, f)
+	}
 	defer func() {
 		// A short deadline may pass before or while an early instant is evaluated
 		// (slow machine). Being done is monotonic: if the context is still live now,
@@ -717,7 +798,8 @@ func (st *runState) observe(ctx context.Context, where, when string) {
 			label = "after-deadline"
 		}
 		for _, f := range pending {
-			st.add(f.Clause, f.Where, label, f.Detail)
+			f.When = label
+			st.addFinding(f)
 		}
 	}()
 	if v := ctx.Value(markerKey{}); v != nil {
@@ -737,7 +819,25 @@ func (st *runState) observe(ctx context.Context, where, when string) {
 		add("value-leak:outgoing-md", "handler context carries outgoing metadata "+mdString(md))
 	}
 	in, _ := metadata.FromIncomingContext(ctx)
-	if sub := carried(in, st.wantIncoming, st.credsWant); sub != "" { // the text does not depend on which key differs
+	// keys that the standard transport withholds: nothing is demanded of them here
+	var skip func(string) bool
+	if st.c.Part == "keys" {
+		skip = withheldKey
+		if st.reference {
+			// the table itself is what is being checked against the standard transport
+			for k, vals := range st.wantIncoming {
+				if !withheldKey(k) {
+					continue
+				}
+				for _, v := range vals {
+					if containsAll(in[k], []string{v}) {
+						add("calibration:key-not-withheld:"+k, fmt.Sprintf("the table says the standard transport withholds %q; it delivered %q", k, in[k]))
+					}
+				}
+			}
+		}
+	}
+	if sub, key := carriedKey(in, st.wantIncoming, st.credsWant, skip); sub != "" { // the text does not depend on which key differs
 		clause := "incoming-md-mismatch"
 		if sub != "mismatch" {
 			clause += ":" + sub
@@ -746,7 +846,7 @@ func (st *runState) observe(ctx context.Context, where, when string) {
 		if st.creds != nil {
 			msg += " joined with the per-RPC credentials' " + mdString(st.credsWant)
 		}
-		add(clause, msg)
+		addKey(clause, key, msg)
 	} else if st.creds != nil {
 		for k, cr := range st.credsWant {
 			if len(cr) > 0 && len(st.wantIncoming[k]) > 0 {
@@ -864,10 +964,11 @@ leak:
 	out, _ := metadata.FromOutgoingContext(cc)
 	if st.creds == nil {
 		if !mdEqual(out, callerNow) && !mdEqual(out, st.wantIncoming) {
-			add("client-context-incomplete", "ClientContext(ctx) outgoing metadata "+mdString(out)+" differs from the caller's "+mdString(callerNow))
+			addKey("client-context-incomplete", firstDiffKey(out, st.wantIncoming), "ClientContext(ctx) outgoing metadata "+mdString(out)+" differs from the caller's "+mdString(callerNow))
 		}
 	} else if a, b := carried(out, callerNow, st.credsWant), carried(out, st.wantIncoming, st.credsWant); a != "" && b != "" && !mdEqual(out, callerNow) {
-		add("client-context-incomplete", "ClientContext(ctx) outgoing metadata "+mdString(out)+" is neither the caller's "+mdString(callerNow)+" nor that joined with the credentials' "+mdString(st.credsWant)+" ("+b+")")
+		_, key := carriedKey(out, st.wantIncoming, st.credsWant, nil)
+		addKey("client-context-incomplete", key, "ClientContext(ctx) outgoing metadata "+mdString(out)+" is neither the caller's "+mdString(callerNow)+" nor that joined with the credentials' "+mdString(st.credsWant)+" ("+b+")")
 	}
 	if inc, _ := metadata.FromIncomingContext(cc); !mdEqual(inc, st.callerIncoming) {
 		add("client-context-incomplete", "ClientContext(ctx) incoming metadata "+mdString(inc)+" differs from the caller's "+mdString(st.callerIncoming))
